@@ -64,8 +64,8 @@ Proof.
   assert (Hs : skipn o (firstn e buf) = s) by (unfold s; apply skipn_firstn_comm).
   apply (parse_chain (firstn e buf) (S (length s)) o).
   - rewrite firstn_length. lia.
-  - rewrite Hs. replace o with (o + 0)%nat at 2 by lia.
-    rewrite parse_fields_shift. unfold parse_msg in Hp. rewrite Hp. reflexivity.
+  - rewrite Hs. pose proof (parse_fields_shift o (S (length s)) s 0) as Hsh.
+    rewrite Nat.add_0_r in Hsh. rewrite Hsh. unfold parse_msg in Hp. rewrite Hp. reflexivity.
 Qed.
 
 (* ---- header view of a well-formed header -------------------------------------------------------- *)
@@ -92,11 +92,12 @@ Lemma decode_header_wf h base : wf_header h = true ->
        end.
 Proof.
   intros H. destruct (wf_header_inv _ H) as (hrecs & L & _ & Hs).
-  unfold decode_header, hv_of. rewrite (lv_parse _ _ _ L).
-  destruct (last_of hrecs fld_hdr_split ty_bytes) as [sf|].
+  destruct (last_of hrecs fld_hdr_split ty_bytes) as [sf|] eqn:El.
   - destruct Hs as (srecs & Ls & Hne). exists hrecs, srecs. split; [exact L|].
-    rewrite (lv_parse _ _ _ Ls). split; [reflexivity|]. split; assumption.
-  - exists hrecs, []. split; [exact L|]. split; [reflexivity|exact I].
+    unfold decode_header, hv_of. rewrite (lv_parse _ _ _ L), El, (lv_parse _ _ _ Ls).
+    split; [reflexivity|]. split; assumption.
+  - exists hrecs, []. split; [exact L|].
+    unfold decode_header, hv_of. rewrite (lv_parse _ _ _ L), El. split; [reflexivity|exact I].
 Qed.
 
 Lemma rec_at_nonempty buf f : rec_at buf f -> (f_from f < f_to f)%nat.
@@ -117,7 +118,7 @@ Proof.
   unfold hv_of, hproj_parent.
   destruct (last_of hrecs fld_hdr_split ty_bytes) as [sf|] eqn:El; [|reflexivity].
   destruct Hs as [Ls Hne].
-  destruct (last_of_in_typed _ _ _ _ _ _ L eq_refl El) as (Hat & _ & _).
+  destruct (last_of_in_typed hdr_schema h hrecs fld_hdr_split ty_bytes sf L eq_refl El) as (Hat & _ & _).
   pose proof (rec_at_nonempty _ _ Hat) as Hlt.
   destruct Hat as (_ & Hbnd & Hto & _).
   assert (Hlen : length h = (ht - hf)%nat).
@@ -128,7 +129,7 @@ Proof.
   set (o := (hf + (0 + f_vfrom sf))%nat). set (e := (hf + (0 + f_to sf))%nat).
   assert (Hsub : firstn (e - o) (skipn o buf) = sub h sf).
   { unfold sub, h, o, e. rewrite skipn_firstn_comm, firstn_firstn, skipn_add.
-    f_equal; [lia|f_equal; lia]. }
+    repeat (f_equal; try lia). }
   assert (Hc : chain (firstn e buf) o (map (shift o) srecs)).
   { apply chain_embed; [unfold o, e; lia|]. rewrite Hsub. exact (lv_parse _ _ _ Ls). }
   assert (Hnn : map (shift o) srecs <> []).
@@ -190,8 +191,8 @@ Proof.
   unfold full_decode, ov_of. rewrite (lv_parse _ _ _ L).
   destruct (last_of recs fld_object_hdr ty_bytes) as [hf|] eqn:El.
   - destruct (decode_header_wf (sub b hf) (f_vfrom hf) Hh) as (hrecs & srecs & _ & Hd & _).
-    exists recs, (hv_of (sub b hf) (f_vfrom hf) hrecs srecs). rewrite Hd. auto.
-  - exists recs, hview0. auto.
+    exists recs, (hv_of (sub b hf) (f_vfrom hf) hrecs srecs). rewrite Hd, !El. auto.
+  - exists recs, hview0. rewrite !El. auto.
 Qed.
 
 Theorem agree_bounds b : wf_object b = true ->
@@ -218,7 +219,7 @@ Proof.
   unfold proj_parent, ov_of. cbn [ov_h].
   destruct (last_of recs fld_object_hdr ty_bytes) as [hf|] eqn:El.
   - destruct Hh as [Hwf Hdh].
-    destruct (last_of_in_typed _ _ _ _ _ _ L eq_refl El) as (Hat & _ & _).
+    destruct (last_of_in_typed obj_schema b recs fld_object_hdr ty_bytes hf L eq_refl El) as (Hat & _ & _).
     pose proof (rec_at_nonempty _ _ Hat) as Hlt. destruct Hat as (_ & Hbnd & Hto & _).
     cbn [fb_of fb_missing fb_vfrom fb_to].
     replace (0 + f_from hf =? 0 + f_to hf)%nat with false by (symmetry; apply Nat.eqb_neq; lia).
@@ -243,7 +244,7 @@ Proof.
   unfold ov_of. cbn [ov_hdr ov_h].
   destruct (last_of recs fld_object_hdr ty_bytes) as [hf|] eqn:El.
   - destruct Hh as [Hwf Hdh].
-    destruct (last_of_in_typed _ _ _ _ _ _ L eq_refl El) as (Hat & _ & _).
+    destruct (last_of_in_typed obj_schema b recs fld_object_hdr ty_bytes hf L eq_refl El) as (Hat & _ & _).
     pose proof (rec_at_nonempty _ _ Hat) as Hlt. destruct Hat as (_ & Hbnd & Hto & _).
     cbn [fb_of fb_missing fb_vfrom fb_to].
     replace (0 + f_from hf =? 0 + f_to hf)%nat with false by (symmetry; apply Nat.eqb_neq; lia).
